@@ -378,13 +378,14 @@ pub fn gen_migrate_case(r: &mut Rng, id: u64) -> Value {
 
 /// (d) a handle closed while a call on it is in flight
 pub fn gen_busy_case(r: &mut Rng, id: u64, k: usize) -> Value {
-    let (mode, target) = match k % 6 { 0 => ("lock", "session"), 1 => ("big", "session"), 2 => ("big", "scan"), 3 => ("lock", "store"), 4 => ("lock", "session"), _ => ("big", "store") };
-    json!({"id": id, "kind": "c19", "ops": [{"op": "busy", "mode": mode, "target": target, "commit": r.chance(1, 2), "txn": r.chance(1, 2)}, {"op": "version"}]})
+    let (mode, target) = match k % 7 { 0 => ("lock", "session"), 1 => ("big", "session"), 2 => ("big", "scan"), 3 => ("lock", "store"), 4 => ("lock", "session"), 5 => ("big", "store"), _ => ("lock", "session") };
+    // every seventh: the close has NO callback (its Busy failure is only logged): the in-flight call is still answered once, the handle dies
+    json!({"id": id, "kind": "c19", "ops": [{"op": "busy", "mode": mode, "target": target, "commit": r.chance(1, 2), "txn": r.chance(1, 2), "nocb": k % 7 == 6}, {"op": "version"}]})
 }
 
 /// (c) the logger entry points (child process)
 pub fn gen_logger_case(_r: &mut Rng, id: u64, k: usize) -> Value {
-    let op = match k % 8 {
+    let op = match k % 9 {
         0 => json!({"op": "logger", "level": 5, "enabled": false, "flush": false}),
         1 => json!({"op": "logger", "level": 5, "enabled": true, "enabled_max": 4, "flush": true}),
         2 => json!({"op": "logger", "level": 4, "enabled": true, "enabled_max": 5, "flush": false}),
@@ -392,7 +393,142 @@ pub fn gen_logger_case(_r: &mut Rng, id: u64, k: usize) -> Value {
         4 => json!({"op": "logger", "level": 0, "enabled": false, "flush": false}),
         5 => json!({"op": "logger", "level": -1, "enabled": false, "flush": false}),
         6 => json!({"op": "logger", "level": ([6i64, -2, 2147483647][(id % 3) as usize]), "enabled": true, "enabled_max": 5, "flush": true}),
-        _ => json!({"op": "logger", "default_first": true}),
+        7 => json!({"op": "logger", "default_first": true}),
+        _ => json!({"op": "logger", "level": 2, "enabled": false, "flush": false, "clear_first": true}),   // Warn; clear with no logger installed
     };
     json!({"id": id, "kind": "c19", "ops": [op]})
 }
+
+/// round 2, row 2: the backend fails INSIDE an accepted call (ABORT triggers / hidden tables installed out of band on the store's
+/// file and on the twin's): the error comes through the callback, once; the handle stays usable; the retry without the fault works
+pub fn gen_fault_case(r: &mut Rng, id: u64) -> Value {
+    let mut ops = vec![
+        json!({"op": "provision2", "uri": "FILE", "method": "raw", "pass": K1, "profile": "default", "recreate": true, "cb": true}),
+        json!({"op": "create_profile", "h": {"slot": 0}, "name": "p2", "cb": true}),
+        json!({"op": "session_start", "h": {"slot": 0}, "profile": null, "txn": false, "cb": true}),
+    ];
+    for (c, n) in [("c1", "r0"), ("c1", "r1"), ("c2", "r2")] {
+        ops.push(json!({"op": "update", "h": {"slot": 2}, "operation": 0, "c": c, "n": n, "v": hex::encode(r.bytes(9)), "tt": "{\"a\":\"1\"}", "ts": [[0, "a", "1"]], "e": -1, "cb": true, "key_escaped": false}));
+    }
+    ops.push(json!({"op": "session_close", "h": {"slot": 2}, "commit": true, "cb": true}));
+    let trig = |what: &str, on: bool| json!({"op": "trigger", "of": 0, "what": what, "on": on});
+    let h = json!({"slot": 0});
+    let mut blocks: Vec<u32> = (0..8).collect();
+    // a random order; the re-key block is slow-free (raw keys) and every block cleans up after itself
+    for k in (1..blocks.len()).rev() { let j = r.below(k + 1); blocks.swap(k, j); }
+    let mut cur_key = K1;
+    for b in blocks {
+        match b {
+            0 => {
+                ops.push(trig("profiles_insert", true));
+                ops.push(json!({"op": "create_profile", "h": h, "name": "p3", "cb": true}));
+                ops.push(json!({"op": "current_error"}));
+                ops.push(trig("profiles_insert", false));
+                ops.push(json!({"op": "create_profile", "h": h, "name": "p3", "cb": true}));
+            }
+            1 => {
+                ops.push(json!({"op": "create_profile", "h": h, "name": "pb", "cb": true}));
+                ops.push(trig("profiles_delete", true));
+                ops.push(json!({"op": "remove_profile", "h": h, "name": "pb", "cb": true}));
+                ops.push(json!({"op": "current_error"}));
+                ops.push(json!({"op": "remove_profile", "h": h, "name": "nosuch", "cb": true}));   // no row, no trigger: removed = false
+                ops.push(trig("profiles_delete", false));
+                ops.push(json!({"op": "remove_profile", "h": h, "name": "pb", "cb": true}));
+            }
+            2 => {
+                ops.push(trig("config_write", true));
+                ops.push(json!({"op": "set_default_profile", "h": h, "name": "p2", "cb": true}));
+                ops.push(json!({"op": "current_error"}));
+                ops.push(json!({"op": "get_default_profile", "h": h, "cb": true}));
+                ops.push(trig("config_write", false));
+                ops.push(json!({"op": "set_default_profile", "h": h, "name": "p2", "cb": true}));
+                ops.push(json!({"op": "get_default_profile", "h": h, "cb": true}));
+            }
+            3 => {
+                let new_key = if cur_key == K1 { K2 } else { K1 };
+                ops.push(trig("profiles_update", true));
+                ops.push(json!({"op": "rekey", "h": h, "method": "raw", "pass": new_key, "cb": true}));
+                ops.push(json!({"op": "current_error"}));
+                ops.push(trig("profiles_update", false));
+                ops.push(json!({"op": "store_open", "of": 0, "uri": "x", "method": "raw", "pass": cur_key, "cb": true}));   // the old key still opens
+                ops.push(json!({"op": "rekey", "h": h, "method": "raw", "pass": new_key, "cb": true}));
+                ops.push(json!({"op": "store_open", "of": 0, "uri": "x", "method": "raw", "pass": new_key, "cb": true}));
+                cur_key = new_key;
+            }
+            4 => {
+                let s = ops.len();
+                ops.push(json!({"op": "session_start", "h": h, "profile": null, "txn": false, "cb": true}));
+                ops.push(trig("items_insert", true));
+                ops.push(json!({"op": "update", "h": {"slot": s}, "operation": 0, "c": "c1", "n": "rx", "v": "0102", "tt": "{\"~t\":\"v\"}", "ts": [[1, "t", "v"]], "e": -1, "cb": true, "key_escaped": false}));
+                ops.push(json!({"op": "current_error"}));
+                ops.push(json!({"op": "fetch", "h": {"slot": s}, "c": "c1", "n": "rx", "for_update": false, "cb": true}));
+                ops.push(trig("items_insert", false));
+                ops.push(json!({"op": "update", "h": {"slot": s}, "operation": 0, "c": "c1", "n": "rx", "v": "0102", "tt": "{\"~t\":\"v\"}", "ts": [[1, "t", "v"]], "e": -1, "cb": true, "key_escaped": false}));
+                ops.push(json!({"op": "session_close", "h": {"slot": s}, "commit": true, "cb": true}));
+            }
+            5 => {
+                let s = ops.len();
+                ops.push(json!({"op": "session_start", "h": h, "profile": null, "txn": false, "cb": true}));
+                ops.push(trig("items_delete", true));
+                ops.push(json!({"op": "remove_all", "h": {"slot": s}, "c": "c1", "ft": null, "f": null, "cb": true}));
+                ops.push(json!({"op": "current_error"}));
+                ops.push(json!({"op": "count", "h": {"slot": s}, "c": "c1", "ft": null, "f": null, "cb": true}));
+                ops.push(json!({"op": "update", "h": {"slot": s}, "operation": 2, "c": "c1", "n": "r0", "v": "", "tt": null, "ts": null, "e": -1, "cb": true, "key_escaped": false}));
+                ops.push(json!({"op": "update", "h": {"slot": s}, "operation": 2, "c": "c1", "n": "nosuch", "v": "", "tt": null, "ts": null, "e": -1, "cb": true, "key_escaped": false}));
+                ops.push(json!({"op": "remove_all", "h": {"slot": s}, "c": "nosuch", "ft": null, "f": null, "cb": true}));   // nothing matches: no trigger
+                ops.push(trig("items_delete", false));
+                ops.push(json!({"op": "update", "h": {"slot": s}, "operation": 2, "c": "c1", "n": "r0", "v": "", "tt": null, "ts": null, "e": -1, "cb": true, "key_escaped": false}));
+                ops.push(json!({"op": "session_close", "h": {"slot": s}, "commit": true, "cb": true}));
+            }
+            6 => {
+                ops.push(trig("profiles_hidden", true));
+                let l = ops.len();
+                ops.push(json!({"op": "list_profiles", "h": h, "cb": true}));
+                let _ = l;
+                ops.push(json!({"op": "current_error"}));
+                ops.push(trig("profiles_hidden", false));
+                ops.push(json!({"op": "list_profiles", "h": h, "cb": true}));
+            }
+            _ => {
+                ops.push(trig("config_hidden", true));
+                ops.push(json!({"op": "get_default_profile", "h": h, "cb": true}));
+                ops.push(json!({"op": "set_default_profile", "h": h, "name": "default", "cb": true}));
+                ops.push(json!({"op": "current_error"}));
+                ops.push(trig("config_hidden", false));
+                ops.push(json!({"op": "get_default_profile", "h": h, "cb": true}));
+            }
+        }
+    }
+    ops.push(json!({"op": "dump", "h": h}));
+    ops.push(json!({"op": "store_close", "h": h, "cb": true}));
+    json!({"id": id, "kind": "c19", "ops": ops})
+}
+
+/// round 2, row 4: the NULL-argument arms that were left (one call per argument position)
+pub fn gen_null_args_case(_r: &mut Rng, id: u64) -> Value {
+    let mut ops = vec![
+        json!({"op": "provision", "uri": URI, "method": "raw", "profile": "default", "cb": true}),
+        json!({"op": "session_start", "h": {"slot": 0}, "profile": null, "txn": false, "cb": true}),
+        json!({"op": "key_generate", "alg": "ed25519", "null_out": false}),
+        json!({"op": "key_insert", "h": {"slot": 1}, "key": 2, "n": "k1", "md": null, "tt": null, "ts": null, "key_escaped": false, "cb": true}),
+        json!({"op": "key_update", "h": {"slot": 1}, "n": null, "md": "m", "tt": null, "ts": null, "key_escaped": false, "cb": true}),
+        json!({"op": "key_remove", "h": {"slot": 1}, "n": null, "cb": true}),
+        json!({"op": "current_error"}),
+        json!({"op": "key_fetch", "h": {"slot": 1}, "n": "k1", "cb": true}),
+        json!({"op": "get_profile_name", "h": {"slot": 0}, "cb": false}),
+        json!({"op": "list_profiles", "h": {"slot": 0}, "cb": false}),
+        json!({"op": "current_error"}),
+        json!({"op": "store_close", "h": {"raw": "zero"}, "cb": false}),        // the failure is only logged
+        json!({"op": "store_close", "h": {"raw": "unissued"}, "cb": false}),
+    ];
+    for l in [2, 3, 4, 1, 0, 5, -1, 6] { ops.push(json!({"op": "set_max_log_level", "level": l})); }
+    for null_at in 0..5 {
+        ops.push(json!({"op": "migrate", "src": if null_at == 0 { Value::Null } else { json!("missing") }, "name": if null_at == 1 { Value::Null } else { json!(WALLET_NAME) },
+                        "key": if null_at == 2 { Value::Null } else { json!(WALLET_KEY) }, "kdf": if null_at == 3 { Value::Null } else { json!("RAW") }, "cb": null_at != 4}));
+    }
+    ops.push(json!({"op": "current_error"}));
+    json!({"id": id, "kind": "c19", "ops": ops})
+}
+
+/// round 2, row 2: `askar_terminate` with calls pending (child process)
+pub fn gen_terminate_case(id: u64) -> Value { json!({"id": id, "kind": "c19", "ops": [{"op": "terminate"}]}) }
